@@ -1095,10 +1095,44 @@ def run_substring_names():
                                        "sys.exit(1 if abs(float(r.value) * r.units.base_value - %r) > 1e-9 * 500 else 0)\n" % (asrc, sym, bsrc, float(k))))
 
 
+# ----------------------------------------------------------------------------- 7. mixed widths
+def run_mixed_widths():
+    """point / difference arithmetic when the two operands are stored in different widths: the value is the
+    affine one to the precision of the WIDER operand's data -- a double-precision difference is not rounded to
+    the float of a narrow point's item size (and vice versa); point readings are small integers, exactly
+    representable in every dtype used"""
+    import itertools
+    dvals = [1000.3, 18.0, -7.125, 0.1]
+    pvals = [20, 21, -5, 100]
+    scale = {"degC": 1.0, "degF": 5.0 / 9.0}
+    for (pname, dname), pdt, order in itertools.product(
+            (("degC", "delta_degF"), ("degF", "delta_degC"), ("degC", "delta_degC"), ("degF", "delta_degF")),
+            ("int16", "int32", "float16", "float32", "float64"), ("point-first", "difference-first")):
+        key = "C08[mixed-width:%s:%s:%s:%s]" % (order, pname, dname, pdt)
+        R.case(key, sample={"point": pname, "difference": dname, "point dtype": pdt, "order": order})
+        p = unyt_array(np.array(pvals, dtype=pdt), pname)
+        d = unyt_array(np.array(dvals, dtype="float64"), dname)
+        st, r = safe(lambda: (p + d) if order == "point-first" else (d + p))
+        if st == "exc":
+            continue                       # a refusal is allowed wherever no value is demanded
+        ratio = scale["degC" if dname == "delta_degC" else "degF"] / scale[pname]
+        exp = np.array(pvals, dtype="float64") + np.array(dvals) * ratio
+        got = np.asarray(r.d, dtype="float64")
+        lab = str(r.units.expr)
+        if lab not in ("degC", "degF") or lab != pname or not np.allclose(got, exp, rtol=1e-9, atol=1e-9):
+            src = ("p = unyt.unyt_array(np.array(%r, dtype=%r), %r)\nd = unyt.unyt_array(np.array(%r), %r)\n"
+                   "r = %s\nexp = np.array(%r)\nprint(r, exp)\n"
+                   "sys.exit(0 if str(r.units.expr) == %r and np.allclose(np.asarray(r.d, dtype='f8'), exp, rtol=1e-9, atol=1e-9) else 1)\n"
+                   % (pvals, pdt, pname, dvals, dname, "p + d" if order == "point-first" else "d + p", [float(x) for x in exp], pname))
+            fail("C08[mixed-width:%s:%s]" % (order, pdt), "%s %s(%s) and %s(float64): got %r %s, affine arithmetic gives %r %s"
+                 % (order, pname, pdt, dname, got.tolist(), lab, exp.tolist(), pname), replay_script(src))
+
+
 # ----------------------------------------------------------------------------- main
 REPS = {"additive": 6, "compare": 6, "reductions": 6, "refusals": 3} if R.thorough else {}
 for name, fn in (("conversions", run_conversions), ("additive", run_additive), ("compare", run_compare),
-                 ("refusals", run_refusals), ("reductions", run_reductions), ("substring-names", run_substring_names)):
+                 ("refusals", run_refusals), ("reductions", run_reductions), ("substring-names", run_substring_names),
+                 ("mixed-widths", run_mixed_widths)):
     t0 = R.elapsed()
     try:
         for _rep in range(REPS.get(name, 1)):   # fresh random readings / shapes each repetition
